@@ -105,14 +105,20 @@ def _spell_code(xexpr, srcs, lab_a, lab_b):
     return '\n'.join(lines)
 
 
+def _context_sensitive(t):
+    if t[0] in ('look', 'at'):
+        return True
+    return any(isinstance(x, tuple) and x and isinstance(x[0], str) and _context_sensitive(x) for x in t[1:])
+
+
 def witness(text):
     """-> (w, K) such that w^k is a k-fold repetition of X and of no other count, for k<=K; or None"""
     try:
         p = rx.parse(text)
     except re.error:
         return None
-    if p.inctx or rx.has_ref(p.tree):
-        return None
+    if p.inctx or rx.has_ref(p.tree) or _context_sensitive(p.tree):
+        return None       # counting on repetitions of a witness only makes sense for context-free operands
     try:
         cx = re.compile('(?:' + text + ')', rx.FLAGS)
     except re.error:
